@@ -29,7 +29,11 @@ var opaqueNamed = map[string]bool{
 }
 
 func typeKey(t types.Type) string {
-	return canonAny(types.TypeString(t, func(p *types.Package) string { return shortPkg(p.Path()) }))
+	s := canonAny(types.TypeString(t, func(p *types.Package) string { return shortPkg(p.Path()) }))
+	if len(typeRenameRes) > 0 {
+		s = canonRenamedTypes(s)
+	}
+	return s
 }
 
 var anyRe = regexp.MustCompile(`(^|[^A-Za-z0-9_.])any($|[^A-Za-z0-9_])`)
